@@ -11,6 +11,8 @@ from __future__ import annotations
 from fractions import Fraction
 from typing import Any, Dict, List
 
+from hypothesis import strategies as st
+
 from .. import drive_api, e2e, gen, model
 from ..engine_common import engine_case, history_classes
 from ..runner import Outcome
@@ -20,7 +22,8 @@ LEVEL = "exploration"
 RULE = (
     "Constructed histories with wide numerics (amounts 1e-11..1e9 with up to 11 decimals, prices 1e-8..1e7, tiny "
     "fractions of huge lots) and optional exchange-supplied fiat columns (fiat_in_no_fee, fiat_in_with_fee, fiat_fee, "
-    "fiat_out_no_fee, crypto_out_with_fee), x methods x schedules. Oracle: exact Fraction model of T(e), K(l) and the "
+    "fiat_out_no_fee, crypto_out_with_fee; in a sixth of the cases one disposal's crypto fee carries a supplied fiat value of "
+    "exactly 0), x methods x schedules. Oracle: exact Fraction model of T(e), K(l) and the "
     "pro-rata formulas, tolerance 1e-15 relative; float-conversion monitor. Non-trivial = a fraction whose ratio "
     "a/amount(l) or a/total(e) has a non-terminating decimal expansion, or a case with a supplied fiat column."
 )
@@ -39,8 +42,22 @@ def budget(tier: str) -> Dict[str, Any]:
     return {"shards": 16, "examples": 1500 if tier == "quick" else 20000, "examples2": 8 if tier == "quick" else 150}
 
 
+@st.composite
+def strategy_case(draw: Any) -> Dict[str, Any]:
+    case = draw(engine_case(CFG))
+    if draw(st.integers(0, 5)) == 0:
+        # an exchange that reports the fiat value of a (dust-sized or waived) crypto fee as exactly 0: a supplied value like any
+        # other ("if provided use them as given"), not an empty cell
+        targets = [i for i, r in enumerate(case["rows"]) if r["table"] == "out" and r["row"] >= 0 and model.F(r["fee"]) > 0]
+        if targets:
+            i = draw(st.sampled_from(targets))
+            case["rows"][i] = dict(case["rows"][i], fiat_fee="0")
+            case["supplied_zero_fee"] = True
+    return case
+
+
 def strategy(tier: str) -> Any:
-    return engine_case(CFG)
+    return strategy_case()
 
 
 def install_float_monitor() -> None:
@@ -166,6 +183,8 @@ def evaluate(case: Dict[str, Any]) -> Outcome:
     if supplied:
         out.nontrivial = True
         out.classes.add("supplied_fiat_column")
+    if case.get("supplied_zero_fee"):
+        out.classes.add("crypto_fee_with_supplied_fiat_value_zero")
     if any(t.is_lot and t.crypto_in >= 10**8 for t in txs):
         out.classes.add("huge_lot")
     if any(t.is_lot and t.crypto_in <= Fraction(1, 10**8) for t in txs):
